@@ -6,6 +6,7 @@ import copy
 import itertools
 import random
 import threading
+import time
 
 import fiddle as fdl
 from fiddle._src import config as config_lib
@@ -323,6 +324,54 @@ def extended_history(rng, res, label, fresh):
     res.failures.append(Failure(None, f"C16 {label} {ops!r}: {p}", {"ops": [repr(o) for o in ops]}))
 
 
+def tagged_value_assignment_case(rng, res, label):
+  """Assigning Tag.new(v) to a parameter that already carries other tags (from add_tag or from an
+  Annotated[...] parameter): the history of the parameter must end with its CURRENT value and tag set."""
+  import typing
+  def ann(m: typing.Annotated[int, l2.TagA] = 1, n=2):
+    return None
+  fn, names = rng.choice([(ann, ["m", "n"]), (l2.fa, ["a", "b"]), (l2.Ka, ["p", "q"])])
+  cfg = fdl.Config(fn)
+  trace = []
+  res.evaluations += 1
+  res.count("tagged-value-assignment")
+  for _ in range(rng.randint(2, 6)):
+    nm = rng.choice(names)
+    r = rng.random()
+    if r < 0.35:
+      t = rng.choice(TAGS)
+      fdl.add_tag(cfg, nm, t)
+      trace.append(f"add_tag {nm} {t.__name__}")
+    elif r < 0.8:
+      tags = rng.sample(TAGS, rng.randint(1, 2))
+      v = rng.randint(0, 9)
+      setattr(cfg, nm, fdl.TaggedValue(tags, v))
+      trace.append(f"{nm} = TaggedValue({[t.__name__ for t in tags]}, {v})")
+    else:
+      v = rng.randint(10, 19)
+      setattr(cfg, nm, v)
+      trace.append(f"{nm} = {v}")
+    for k in names:
+      entries = cfg.__argument_history__.get(k, [])
+      tag_entries = [e for e in entries if e.kind == history.ChangeKind.UPDATE_TAGS]
+      val_entries = [e for e in entries if e.kind == history.ChangeKind.NEW_VALUE]
+      cur_tags = set(cfg.__argument_tags__.get(k, ()))
+      if tag_entries and set(tag_entries[-1].new_value) != cur_tags:
+        res.failures.append(Failure(None, f"C16 {label}: the history of {k!r} ends with tags "
+                                    f"{sorted(t.__name__ for t in tag_entries[-1].new_value)} but its current tags are "
+                                    f"{sorted(t.__name__ for t in cur_tags)}", {"label": label, "trace": trace}))
+        return
+      if not tag_entries and cur_tags and fn is not ann:
+        res.failures.append(Failure(None, f"C16 {label}: {k!r} has tags but no tag entry in its history",
+                                    {"label": label, "trace": trace}))
+        return
+      if k in cfg.__arguments__ and (not val_entries or val_entries[-1].new_value is not cfg.__arguments__[k]
+                                     and val_entries[-1].new_value != cfg.__arguments__[k]):
+        res.failures.append(Failure(None, f"C16 {label}: the history of {k!r} does not end with its current value",
+                                    {"label": label, "trace": trace}))
+        return
+
+
 def thread_run(res, n_threads, n_edits, label):
   results = [None] * n_threads
   barrier = threading.Barrier(n_threads)
@@ -335,6 +384,7 @@ def thread_run(res, n_threads, n_edits, label):
       if j % 7 == 3:
         with history.suspend_tracking():
           cfg.x = j
+          time.sleep(0.0003)     # other threads edit while this one is inside its suspend block
       else:
         cfg.x = j
         fdl.add_tag(cfg, "y", TAGS[j % len(TAGS)])
@@ -356,6 +406,14 @@ def thread_run(res, n_threads, n_edits, label):
       break
   if not history.tracking_enabled():
     res.failures.append(Failure(None, f"C16 {label}: suspend_tracking in a worker thread leaked", {}))
+  # every edit made outside the thread's OWN suspend blocks is logged, whatever other threads are doing
+  expected = sum(1 for j in range(n_edits) if j % 7 != 3)
+  for i, r in enumerate(results):
+    if len(r[1]) != expected:
+      res.failures.append(Failure(None, f"C16 {label}: thread {i} made {expected} tracked edits of x but its history "
+                                  f"has {len(r[1])} entries (another thread's suspend_tracking interfered)",
+                                  {"label": label, "threads": n_threads, "edits": n_edits}))
+      break
 
 
 def run(tier: str, seed: int) -> Result:
@@ -379,4 +437,6 @@ def run(tier: str, seed: int) -> Result:
     extended_history(rng, res, f"ext#{i}", fresh)
   for i in range(20 if tier == "quick" else 500):
     thread_run(res, rng.randint(2, 4), rng.randint(20, 120), f"threads#{i}")
+  for i in range(60 if tier == "quick" else 2000):
+    tagged_value_assignment_case(rng, res, f"tv-assign#{i}")
   return res
